@@ -70,16 +70,31 @@ func (d *dt1) totalSortD(call ssa.CallInstruction, depth int) (ssa.Value, string
 	cc := call.Common()
 	n := calleeFullName(cc)
 	switch n {
+	case "slices.Sorted":
+		// consumes an iterator (maps.Keys(m)) and hands back a new, totally ordered slice
+		if cv, ok := call.(*ssa.Call); ok {
+			return cv, "total"
+		}
+	case "slices.SortedFunc", "slices.SortedStableFunc":
+		if cv, ok := call.(*ssa.Call); ok && len(cc.Args) == 2 {
+			for _, lf := range funcValuesOf(cc.Args[1], 0) {
+				_, tie := d.c.comparatorShape(lf)
+				if tie || d.elementCompare(lf) {
+					return cv, "total"
+				}
+			}
+			return cv, "partial"
+		}
 	case "sort.Strings", "sort.Ints", "slices.Sort":
 		return cc.Args[0], "total"
-	case "sort.Slice", "sort.SliceStable":
+	case "sort.Slice", "sort.SliceStable", "slices.SortFunc", "slices.SortStableFunc":
 		arg := cc.Args[0]
 		if mi, ok := arg.(*ssa.MakeInterface); ok {
 			arg = mi.X
 		}
-		if mc, ok := resolve(cc.Args[1]).(*ssa.MakeClosure); ok {
-			_, tie := d.c.comparatorShape(mc.Fn.(*ssa.Function))
-			if tie || d.elementLess(mc.Fn.(*ssa.Function)) {
+		for _, lf := range funcValuesOf(cc.Args[1], 0) {
+			_, tie := d.c.comparatorShape(lf)
+			if tie || d.elementLess(lf) || d.elementCompare(lf) {
 				return arg, "total"
 			}
 		}
@@ -104,6 +119,20 @@ func (d *dt1) totalSortD(call ssa.CallInstruction, depth int) (ssa.Value, string
 		}
 	}
 	return nil, ""
+}
+
+// elementCompare: a three-way comparator that is cmp.Compare / strings.Compare of the two elements themselves.
+func (d *dt1) elementCompare(lf *ssa.Function) bool {
+	rets := returnsOf(lf)
+	if len(rets) != 1 || len(rets[0].Results) != 1 || len(lf.Params) != 2 {
+		return false
+	}
+	cl, _ := callOf(rets[0].Results[0])
+	if cl == nil || len(cl.Call.Args) != 2 {
+		return false
+	}
+	n := calleeFullName(&cl.Call)
+	return (n == "cmp.Compare" || n == "strings.Compare") && resolve(cl.Call.Args[0]) == ssa.Value(lf.Params[0]) && resolve(cl.Call.Args[1]) == ssa.Value(lf.Params[1])
 }
 
 // elementLess: comparator of the form s[i] < s[j] on directly comparable elements (strings).
@@ -472,12 +501,31 @@ func (d *dt1) taintedUses(f *ssa.Function, v ssa.Value, label string, depth int)
 					if fa, ok := y.Addr.(*ssa.FieldAddr); ok {
 						if base := cellOf(fa.X); base != nil {
 							if _, isStruct := base.Type().Underlying().(*types.Pointer).Elem().Underlying().(*types.Struct); isStruct {
+								escapes := false
 								for _, alias := range cellAliases(base) {
 									arefs := alias.Referrers()
 									if arefs == nil {
 										continue
 									}
 									for _, ar := range *arefs {
+										switch esc := ar.(type) {
+										case *ssa.UnOp:
+											if esc.Op == token.MUL && esc.X == alias {
+												escapes = true // the struct is copied out as a whole (returned, passed by value)
+											}
+										case *ssa.Return, *ssa.MakeInterface:
+											escapes = true
+										case *ssa.Store:
+											if esc.Val == alias {
+												if _, local := esc.Addr.(*ssa.Alloc); !local {
+													escapes = true
+												}
+											}
+										case ssa.CallInstruction:
+											if cal := esc.Common().StaticCallee(); cal == nil || !c.InModule(cal) {
+												escapes = true
+											}
+										}
 										fa2, ok := ar.(*ssa.FieldAddr)
 										if !ok || fa2.Field != fa.Field || fa2.Referrers() == nil {
 											continue
@@ -506,6 +554,9 @@ func (d *dt1) taintedUses(f *ssa.Function, v ssa.Value, label string, depth int)
 											}
 										}
 									}
+								}
+								if escapes {
+									observers = append(observers, use{y, "is stored into a structure that leaves the function"})
 								}
 								continue
 							}
@@ -584,6 +635,19 @@ func (d *dt1) taintedUses(f *ssa.Function, v ssa.Value, label string, depth int)
 				}
 				if n == "builtin copy" {
 					observers = append(observers, use{y, "is copied"})
+					continue
+				}
+				// iterator consumers: sorting ones launder the order, collecting ones carry it on
+				if n == "slices.Sorted" || n == "slices.SortedFunc" || n == "slices.SortedStableFunc" {
+					if _, kind := d.totalSort(y); kind != "total" {
+						observers = append(observers, use{y, "is sorted by a comparator that is not a total order (ties keep map order)"})
+					}
+					continue
+				}
+				if n == "slices.Collect" || n == "slices.AppendSeq" || n == "maps.Keys" || n == "maps.Values" {
+					if cv, ok := y.(*ssa.Call); ok {
+						follow(cv)
+					}
 					continue
 				}
 				if sv, kind := d.totalSort(y); sv != nil && seen[sv] || sv != nil && resolve(sv) == resolve(x) {
@@ -795,6 +859,31 @@ func ruleDT1(c *Ctx) {
 		all = uniq(all)
 		c.check(len(all) == 0, fn, construct, pos, fmt.Sprintf("commutative body; %d collected slice(s) sorted or consumed order-independently", len(cols)+len(mcols)),
 			"map iteration order can reach an observable result: "+strings.Join(all, "; "))
+	}
+	// iterator sources: maps.Keys / maps.Values / maps.All walk the map in its iteration order
+	icnt := map[*ssa.Function]int{}
+	for _, fn := range c.Fns {
+		for _, call := range callsNamed(fn, "maps.Keys", "maps.Values", "maps.All") {
+			cv, ok := call.(*ssa.Call)
+			if !ok {
+				continue
+			}
+			icnt[fn]++
+			name := c.Name(fn)
+			construct := fmt.Sprintf("iter-map#%d", icnt[fn])
+			pos := c.Pos(cv.Pos())
+			if d.returnsNormalised(fn) {
+				c.ok(name, construct, pos, "inside a normaliser: the function's result passes a total sort")
+				continue
+			}
+			label := "the sequence walked from the map at " + pos
+			ts := d.taintedUses(fn, cv, label, 0)
+			if ts.resultTainted {
+				taintedResult[fn] = label
+			}
+			c.check(len(ts.problems) == 0, name, construct, pos, "the map-ordered sequence is sorted or consumed order-independently",
+				"map iteration order can reach an observable result: "+strings.Join(uniq(ts.problems), "; "))
+		}
 	}
 	// call sites of functions whose result is a map-ordered slice
 	var tfs []*ssa.Function
